@@ -269,6 +269,10 @@ def run_shard(prop, tier, seed, shard, nshards, out):
                     ctx.counters[k] += v
     if not __debug__:
         ctx.counters["shards_run_with_asserts_stripped"] += 1
+    if os.environ.get("RV_ASCII_LOCALE"):
+        import locale
+
+        ctx.counters["shards_run_with_preferred_encoding_" + locale.getpreferredencoding(False)] += 1
     d = ctx.dump()
     d["status"] = status
     if cov is not None:
@@ -367,7 +371,13 @@ def orchestrate(prop: str, tier: str, seed: int, jobs: int) -> int:
                 cmd.insert(1, "-O")
             if vary_hash:
                 env["PYTHONHASHSEED"] = str(derive_seed(seed, prop, "hash", k) % 4294967295)
-            p = subprocess.Popen(cmd, cwd=VERIF, env=env, stdout=log, stderr=subprocess.STDOUT)
+            env_k = env
+            if nshards > 2 and k == nshards - 2:
+                # one shard of every run executes under the C locale without UTF-8 mode: the
+                # preferred encoding of open() is then ASCII (a plain `LC_ALL=C` job on a cluster)
+                env_k = dict(env, LC_ALL="C", LANG="C", PYTHONUTF8="0", PYTHONCOERCECLOCALE="0",
+                             RV_ASCII_LOCALE="1")
+            p = subprocess.Popen(cmd, cwd=VERIF, env=env_k, stdout=log, stderr=subprocess.STDOUT)
             running.append((k, p, time.time(), out, log))
         time.sleep(0.05)
         for item in list(running):
